@@ -642,6 +642,11 @@ class RawVoltageBackend(object):
         self.obs_length = self.num_blocks * self.time_per_block
         self.total_obs_num_samples = self.num_blocks * self.samples_per_block * self.num_branches
         
+        # Work on a copy: the header is filled in and PKTIDX advanced while recording, 
+        # which must leak neither into the caller's dictionary nor, through the shared
+        # default argument, into later recordings
+        header_dict = dict(header_dict)
+        
         if load_template:
             header_dict = self._header_add_from_template(header_dict)
         if self.input_header_dict is not None:
